@@ -77,6 +77,15 @@ def stepLine (s : Sys) (line : String) : Sys × String :=
         let (_, s') := (sendallGuarded {} c.toNat! bytes).run s
         let extra := if !s'.clocks.isEmpty then " F:unused_clock_readings" else if !s'.picks.isEmpty then " F:unused_picks" else ""
         (s', renderOut s' ++ extra)
+  | ["sendm", c, park, clocks, picks, data] =>
+    -- one write of arbitrary bytes (several requests) in the given front-end mode
+    match unhexTok data with
+    | none => (s, "bad-op")
+    | some bytes =>
+      let s := { s with clocks := parseClocks clocks, picks := parsePicks picks }
+      let (_, s') := (sendallGuarded { park := park == "1", async := park == "2" } c.toNat! bytes).run s
+      let extra := if !s'.clocks.isEmpty then " F:unused_clock_readings" else if !s'.picks.isEmpty then " F:unused_picks" else ""
+      (s', renderOut s' ++ extra)
   | ["wake", c, clocks] =>
     let s := { s with clocks := parseClocks clocks, picks := [] }
     let (_, s') := (wakeConn c.toNat!).run s
